@@ -1,1 +1,47 @@
 //! helpers shared by harnesses
+use crate::array::{Array, Shape};
+
+/// a symbolic shape with `d` axes, every length in lo..=hi
+pub fn any_shape(d: usize, lo: usize, hi: usize) -> Vec<usize> {
+    let mut v = Vec::with_capacity(d);
+    for _ in 0..d {
+        let n: usize = kani::any();
+        kani::assume(n >= lo && n <= hi);
+        v.push(n);
+    }
+    v
+}
+
+/// row-major flat position of `index` in `shape`, written from the definition
+/// (Horner scheme; independent of Shape::strides)
+pub fn flat_of(shape: &[usize], index: &[usize]) -> usize {
+    let mut flat = 0usize;
+    let mut k = 0;
+    while k < shape.len() {
+        flat = flat * shape[k] + index[k];
+        k += 1;
+    }
+    flat
+}
+
+pub fn product(shape: &[usize]) -> usize {
+    let mut p = 1usize;
+    let mut k = 0;
+    while k < shape.len() {
+        p *= shape[k];
+        k += 1;
+    }
+    p
+}
+
+/// array whose element at flat position p is p (so elements identify positions)
+pub fn iota(shape: &[usize]) -> Array<usize> {
+    let n = product(shape);
+    let mut data = Vec::with_capacity(n);
+    let mut p = 0;
+    while p < n {
+        data.push(p);
+        p += 1;
+    }
+    Array::new(data, Shape(shape.to_vec())).unwrap()
+}
